@@ -13,8 +13,10 @@ EXTENDS LogConc, TLC, Json
 
 Trace == ndJsonDeserialize("trace.ndjson")
 
-VARIABLES l
-tvars == <<vars, l>>
+\* loose: a call of this behaviour had to wait for a lock (line "Blocked"): from then on a released
+\* goroutine may run on into the step of another one, so only the state invariants are judged
+VARIABLES l, loose
+tvars == <<vars, l, loose>>
 
 ToSet(s) == {s[i] : i \in DOMAIN s}
 
@@ -78,7 +80,7 @@ TraceInit ==
   /\ hw = e.st.hw /\ epochs = e.st.epochs /\ rd = e.st.rd /\ obs = e.st.obs
   /\ app = AppIdle /\ trn = TrnIdle /\ cln = ClnIdle
   /\ ever = {} /\ taint = {}
-  /\ l = 2
+  /\ l = 2 /\ loose = FALSE
 
 \* conformance: every recorded variable against the model's next value
 Conform(e, m) ==
@@ -95,13 +97,16 @@ Conform(e, m) ==
 EpName == IF taint' = {} THEN "X05_Epochs" ELSE "X05_Epochs:append-overlaps-truncate"
 EpochsNow == Settled' => EpochsMatch(View', epochs')
 
-\* what the properties demand of this step
-Judge(e) ==
+JudgeState(e) ==
   /\ Chk(X05_Ordered', "P", e, "X05_Ordered")
   /\ Chk(X05_Dense', "P", e, "X05_Dense")
   /\ Chk(X05_NextFollows', "P", e, "X05_NextFollows")
-  /\ Chk(EpochsNow, "P", e, EpName)
+  /\ Chk((\A p \in {e.st.app.pc, e.st.trn.pc, e.st.cln.pc} : p # "?running") => EpochsNow, "P", e, EpName)
   /\ Chk(hw' >= hw, "P", e, "X05_HWMonotone")
+
+\* what the properties demand of this step
+Judge(e) ==
+  /\ JudgeState(e)
   /\ (e.a = "Step" /\ e.args.p = "app") =>
         /\ Chk(P_AppendStep, "P", e, "X05_AppendKeeps")
         /\ (obs'.a = "Append" /\ app.batch # <<>>) =>
@@ -123,11 +128,12 @@ TraceNext ==
   /\ Trace[l].a # "End"
   /\ l' = l + 1
   /\ LET e == Trace[l] IN
-     IF e.a = "Open" THEN Reset(e)
-     ELSE LET m == IF Passive(e) THEN None ELSE ModelOf(e) IN
+     IF e.a = "Open" THEN Reset(e) /\ loose' = FALSE
+     ELSE LET m == IF Passive(e) \/ loose THEN None ELSE ModelOf(e) IN
+          /\ loose' = (loose \/ e.a = "Blocked")
           /\ Bind(e, m)
-          /\ Judge(e)
-          /\ (~Passive(e) => Conform(e, m))
+          /\ IF loose \/ e.a = "Blocked" THEN JudgeState(e) ELSE Judge(e)
+          /\ ((~Passive(e) /\ ~loose) => Conform(e, m))
           /\ Chk(TypeOK', "I", e, "TypeOK")
           /\ Chk(X05_ActiveListed', "I", e, "X05_ActiveListed")
 
